@@ -170,6 +170,23 @@ func (g *G) Data(t Ty, nextID *int) ref.Value {
 
 func (g *G) push(b *binding) { g.scope = append(g.scope, b) }
 
+// loopVars are the loop variables whose name still means the loop variable here (no let of that name hides it):
+// index, isFirst and isLast apply to those only.
+func (g *G) loopVars() []string {
+	var out []string
+	for _, l := range g.loops {
+		for i := len(g.scope) - 1; i >= 0; i-- {
+			if g.scope[i].name == l {
+				if g.scope[i].kind == "loop" {
+					out = append(out, l)
+				}
+				break
+			}
+		}
+	}
+	return out
+}
+
 func (g *G) visible() []*binding {
 	seen := map[string]bool{}
 	var out []*binding
@@ -247,8 +264,8 @@ func (g *G) refsOf(t Ty) []ref.Expr {
 			// of the same reference to the next
 			if f.Ty.K == "list" && sameTy(*f.Ty.Elem, t) {
 				acc := g.idxAcc(g.R.Intn(4))
-				if len(g.loops) > 0 && g.R.Bool() {
-					lv := &ref.DataRef{Name: g.loops[g.R.Intn(len(g.loops))]}
+				if lvs := g.loopVars(); len(lvs) > 0 && g.R.Bool() {
+					lv := &ref.DataRef{Name: lvs[g.R.Intn(len(lvs))]}
 					acc = ref.Acc{Kind: 2, Arg: &ref.Binary{Op: "%", L: &ref.Call{Fn: "index", Args: []ref.Expr{lv}}, R: lit(ref.Int(4))}}
 				}
 				out = append(out, &ref.DataRef{Name: "ij", Acc: []ref.Acc{g.keyAcc(f.Name), acc}})
@@ -365,9 +382,13 @@ func (g *G) echoUsable(c echoExpr) bool {
 	if len(c.loops) > len(g.loops) {
 		return false
 	}
+	open := map[string]bool{}
+	for _, l := range g.loopVars() {
+		open[l] = true
+	}
 	for i, l := range c.loops {
-		if g.loops[i] != l {
-			return false
+		if g.loops[i] != l || !open[l] {
+			return false // (a let may hide a loop variable the expression applies a loop function to)
 		}
 	}
 	return true
@@ -443,8 +464,8 @@ func (g *G) expr(t Ty, depth int) ref.Expr {
 		case 8:
 			return &ref.Call{Fn: g.pick([]string{"min", "max"}), Args: []ref.Expr{g.Expr(TInt, depth-1), g.Expr(TInt, depth-1)}}
 		case 9:
-			if len(g.loops) > 0 {
-				return &ref.Call{Fn: "index", Args: []ref.Expr{&ref.DataRef{Name: g.loops[g.R.Intn(len(g.loops))]}}}
+			if lvs := g.loopVars(); len(lvs) > 0 {
+				return &ref.Call{Fn: "index", Args: []ref.Expr{&ref.DataRef{Name: lvs[g.R.Intn(len(lvs))]}}}
 			}
 			return g.intLit()
 		case 10, 11:
@@ -526,8 +547,8 @@ func (g *G) expr(t Ty, depth int) ref.Expr {
 		case 10:
 			return &ref.Unary{Op: "not", X: g.boolOperand(depth - 1)}
 		case 11:
-			if len(g.loops) > 0 {
-				return &ref.Call{Fn: g.pick([]string{"isFirst", "isLast"}), Args: []ref.Expr{&ref.DataRef{Name: g.loops[g.R.Intn(len(g.loops))]}}}
+			if lvs := g.loopVars(); len(lvs) > 0 {
+				return &ref.Call{Fn: g.pick([]string{"isFirst", "isLast"}), Args: []ref.Expr{&ref.DataRef{Name: lvs[g.R.Intn(len(lvs))]}}}
 			}
 			return &ref.Call{Fn: "hasData"}
 		case 12:
